@@ -25,6 +25,10 @@ RULE = (
     'of an element that has stored data, or a load for an absent run with '
     '>= 2 stored runs, or a load after a reopen. Distinct = SHA-1 of case '
     'JSON.'
+    ' Part held: two datasets are connected once and then loaded repeatedly '
+    '(hload) while other datasets store for the same target and algorithm ('
+    'hupd); non-trivial there: a kept dataset loads again after such a stor'
+    'e. '
 )
 ASSUMPTIONS = [
     'shelve backend only; client side through the real Connector and an '
